@@ -643,7 +643,15 @@ func (e *Engine) genericLoopHeader(st *State, fr *Frame, b *ssa.BasicBlock) (han
 		return true, true
 	}
 	st.visits[key] = 1
-	for i, g := range e.evalLoopClauses(st, fr, invs, "", false) {
+	{
+		ne := make(map[string]*State, len(st.loopEntry)+1)
+		for a, b := range st.loopEntry {
+			ne[a] = b
+		}
+		ne[key] = st.clone()
+		st.loopEntry = ne
+	}
+	for i, g := range e.evalLoopClauses(st, fr, invs, key, false) {
 		e.addSideObl(st, invs[i], "entry", g)
 	}
 	choices := e.havocLoopTargets(st, fr, b)
@@ -694,7 +702,7 @@ func (e *Engine) genericLoopHeader(st *State, fr *Frame, b *ssa.BasicBlock) (han
 		for j, v := range combo {
 			choices[j].set(s2, v)
 		}
-		for _, t := range e.evalLoopClauses(s2, fr, invs, "", true) {
+		for _, t := range e.evalLoopClauses(s2, fr, invs, key, true) {
 			s2.assume(t)
 		}
 		nh := make(map[string]*State, len(s2.loopHead)+1)
@@ -746,6 +754,9 @@ func (e *Engine) evalLoopClauses(st *State, fr *Frame, cls []Clause, iterKey str
 		if iterKey != "" {
 			if h, ok := st.loopHead[iterKey]; ok {
 				env.head = h.clone()
+			}
+			if h, ok := st.loopEntry[iterKey]; ok {
+				env.entry = h.clone()
 			}
 		}
 		// the lets of the enclosing function's contract are available to its loop clauses
